@@ -89,3 +89,37 @@ META["C03"] = dict(
     note=SEQ_NOTE + " Process-crash semantics: bytes reach files in order; rename/unlink/truncate/4-byte pwrite atomic. Hook completeness "
          "(every FS step lies between two points) is by construction of the hook commit, not yet audited with strace.",
 )
+
+SCHED_NOTE = ("Trusts: Lean kernel; the cooperative scheduler of the harness (goroutines parked inside verifhook.At, one released at a time, "
+              "blocking detected by a grace period); the event log as the history; the linearizability search of the driver. Interleavings "
+              "are explored at the granularity of the named points; the Go scheduler, memory model and kernel are not modelled.")
+META["C05"] = dict(
+    engine="lean+harness(sched)",
+    design_ref="DESIGN.md section 5, C05",
+    technique="linearizability specification in Lean evaluated on real concurrent histories produced by a cooperative scheduler over hook points; record-list theorems as proved core",
+    text="Real concurrent histories are produced by parking goroutines at the lock-section boundaries of Put/Remove/Get/Index.Get/Flush "
+         "and releasing them under seeded schedules; the Lean driver checks that no call errs, searches exhaustively for a linearization "
+         "against the map specification and compares the quiescent contents with the linearization's final state. The small-step theorem "
+         "(C05_linearizable_partial, C05_no_interference over atomic sections) is stated in DESIGN.md and not yet proved; the key-"
+         "non-interference inside one bucket rests on the proved C08 frame theorems. Known finding D17 (overlapping mutators of one key).",
+    note=SCHED_NOTE,
+)
+META["C06"] = dict(
+    engine="lean+harness(sched)",
+    design_ref="DESIGN.md section 5, C06",
+    technique="as C05 with both collectors as scheduled threads; collector sub-steps are scheduling points; directed replays of the known windows",
+    text="As C05 with primary and index GC cycles running as a scheduled thread over a store prepared with garbage in several files; "
+         "every collector sub-step is a scheduling point. Directed schedules in the corpus reconfirm the known windows D18a/D18b on every "
+         "run. The per-step state-safety theorem (C06_state_safe) reuses the C04 step lemmas and is not yet proved.",
+    note=SCHED_NOTE,
+)
+META["C12"] = dict(
+    engine="lean+harness(sched)",
+    design_ref="DESIGN.md section 5, C12",
+    technique="release specification evaluated on real schedules of flushTick/Flush steps (verif setter pins the rate); Lean small-step rate model (in progress)",
+    text="Writers are forced onto the waiting path (burst 0, tiny measured rate) on a Started store; scheduling points inside flushTick and "
+         "Flush; the store's own flusher goroutine runs freely and is logged. The driver reports a writer still parked on the notice after a "
+         "flush completed after its wait began. The small-step model and C12_release/C12_signal are being proved; proved core today: "
+         "record-list theorems (shared).",
+    note=SCHED_NOTE + " Weak fairness of the flusher is assumed for the liveness reading.",
+)
